@@ -388,3 +388,20 @@ def icc_long_form_lengths(data, L, cfg, enc):
                             continue
                         yield ('icc_long_len:DE%d@%d:%d:%s:%s' % (bit, ln, n, label, how),
                                data[:a] + ('%0*d' % (w, len(new))).encode(enc) + new + data[end:])
+
+
+def short_headers(data, hex_bitmap):
+    """
+    Messages that end inside their own header: the MTI (whole or cut) followed by 0..15 bitmap bytes (0..31 hex characters)
+    that flag no element at all, or only bit 1 - nothing behind them for a field parser to stumble over first.
+    """
+    mti = data[:4]
+    yield 'short_header:empty', b''
+    for n in (1, 2, 3):
+        yield 'short_header:mti_cut_%d' % n, mti[:n]
+    width = 32 if hex_bitmap else 16
+    for n in range(0, width):
+        for first in ((b'0', b'8') if hex_bitmap else (b'\x00', b'\x80')):
+            zero = b'0' if hex_bitmap else b'\x00'
+            bm = (first + zero * width)[:n]
+            yield 'short_header:bitmap_%d_bytes:%s' % (n, first.hex()), mti + bm
